@@ -188,3 +188,8 @@ def classify(f):
 
 def replay(payload):
     S.replay_generic(payload, S.check_c05, 'C05')
+    spec = (payload.get('failure') or {}).get('spec')
+    if spec and len(spec.get('faults') or {}) == 1 and len(spec.get('requests') or []) == 1:
+        print('single-fault recovery (compared with the fault-free run of the same scenario):')
+        for f in single_fault_eval(S.fix_spec(spec)):
+            print('  FAIL', {k: v for k, v in f.items() if k != 'spec'}, '->', classify(f))
